@@ -1425,6 +1425,36 @@ theorem closure_step {m : Nat → Nat} {s : St} {rs : Ref.St} {env : Nat} (hrel 
     hmext, ⟨fun i fr hf => ⟨fr, hf, rfl⟩, hclos1⟩,
     ⟨⟨rfl, rfl, rfl, rfl, hfl1, hfo1, Nat.le_refl _, fun _ _ => rfl⟩, Nat.le_refl _, fun _ _ => rfl⟩, hmv, hfo1 _ hfc.lt⟩
 
+theorem simF_fn_core {n : Nat} (ps : List String) (rest : Option String) (body : List Expr)
+    (hrest : okRest rest = true) (hnd : (ps ++ rest.toList).Nodup) (hps : ∀ p ∈ ps, okParam p = true) (hbody : body ≠ [])
+    {ex : Bool} (hfz : FzList ex "" body = true) (hex : ex = true → gs.loopstack = []) (isFn : Nat → Bool) (c : Ctx) (g2 : GS)
+    (b : List Instr) (tl : Bool)
+    (hb : (compileBegin isFn (anonCtx c gs) body).run (gsAlloc isFn gs s!"__anon{gs.fns.length}" ps rest) = .ok ((b, tl), g2))
+    (hk2 : KeepFns (gsAlloc isFn gs s!"__anon{gs.fns.length}" ps rest) g2)
+    (r : (List Instr × Bool) × GS) (hc : (compile isFn c (.fn ps rest body)).run gs = .ok r)
+    {m : Nat → Nat} {s : St} {rs : Ref.St} {env : Nat} {pre post : List Instr}
+    (hrel : RelF m s rs env) (hgen : GenOk gs r.2 s) (hseg : Seg s pre r.1.1 post) :
+    SimF r.1.1 m s rs env (Ref.eval (n + 1) (.fn ps rest body) env rs) := by
+  have hceq := compile_fn_eq isFn c ps rest body gs g2 b tl hb
+  rw [hceq] at hc
+  injection hc with hc
+  subst hc
+  simp only at hseg hgen ⊢
+  obtain ⟨hTd, htl, hgenb⟩ := tmpl_facts isFn gs g2 _ ps rest b s hk2 hgen
+  obtain ⟨rel1, hgood, hmext, hrext, hfr, hmv, hfo⟩ := closure_step hrel gs.fns.length
+    { ps := ps, rest := rest, body := body, env := env } rfl hrest hnd hps hbody
+    (by rw [hTd]; rfl) (by rw [hTd]; rfl) (by rw [hTd]; rfl) (by rw [hTd]; rfl) htl
+    (by rw [hTd]; show newClosing isFn gs.live = [some 0]; rw [hgen.live]; exact newClosing_single _)
+    ⟨b, tl, isFn, anonCtx c gs, _, g2, "", by rw [hTd], hb, rfl, anonCtx_funcname c gs, ⟨ex, hfz, hex⟩, hgenb,
+      knownOk_anonCtx c gs _ ps rest⟩
+  rw [Ref.eval]
+  have a0 : At s pre (.createClosure gs.fns.length) post := hseg.head
+  refine ⟨afterClosure s gs.fns.length, _, .fn s.fns.length,
+    (Reach.step a0 (fun f => exec_createClosure f _ s)).toX, ⟨hfo, by show s.pc + 1 = _; simp, rfl⟩, ?_, rel1, hmext, hrext,
+    hfr, valIn_fn hgood⟩
+  show Val.fn rs.clos.length = Val.fn _
+  rw [hmv]
+
 theorem simF_fn {n : Nat} {self : String} (ps : List String) (rest : Option String) (body : List Expr)
     (hform : Ff true self (.fn ps rest body) = true) (isFn : Nat → Bool) (c : Ctx) (gs : GS)
     (r : (List Instr × Bool) × GS) (hc : (compile isFn c (.fn ps rest body)).run gs = .ok r)
@@ -1437,25 +1467,8 @@ theorem simF_fn {n : Nat} {self : String} (ps : List String) (rest : Option Stri
   obtain ⟨⟨⟨⟨hrest, hnd⟩, hps⟩, hbody⟩, hff⟩ := hform
   obtain ⟨b, tl, g2, hb, _, hk2⟩ := compileBegin_total_Ff true "" body hbody hff isFn (anonCtx c gs)
     (gsAlloc isFn gs s!"__anon{gs.fns.length}" ps rest) (anonCtx_funcname c gs)
-  have hceq := compile_fn_eq isFn c ps rest body gs g2 b tl hb
-  rw [hceq] at hc
-  injection hc with hc
-  subst hc
-  simp only at hseg hgen ⊢
-  obtain ⟨hTd, htl, hgenb⟩ := tmpl_facts isFn gs g2 _ ps rest b s hk2.1 hgen
-  obtain ⟨rel1, hgood, hmext, hrext, hfr, hmv, hfo⟩ := closure_step hrel gs.fns.length
-    { ps := ps, rest := rest, body := body, env := env } rfl hrest hnd hps hbody
-    (by rw [hTd]; rfl) (by rw [hTd]; rfl) (by rw [hTd]; rfl) (by rw [hTd]; rfl) htl
-    (by rw [hTd]; show newClosing isFn gs.live = [some 0]; rw [hgen.live]; exact newClosing_single _)
-    ⟨b, tl, isFn, anonCtx c gs, _, g2, "", by rw [hTd], hb, rfl, anonCtx_funcname c gs, ⟨false, fzList_of_ff _ _ hff, fun h => by cases h⟩, hgenb,
-      knownOk_anonCtx c gs _ ps rest⟩
-  rw [Ref.eval]
-  have a0 : At s pre (.createClosure gs.fns.length) post := hseg.head
-  refine ⟨afterClosure s gs.fns.length, _, .fn s.fns.length,
-    (Reach.step a0 (fun f => exec_createClosure f _ s)).toX, ⟨hfo, by show s.pc + 1 = _; simp, rfl⟩, ?_, rel1, hmext, hrext,
-    hfr, valIn_fn hgood⟩
-  show Val.fn rs.clos.length = Val.fn _
-  rw [hmv]
+  exact simF_fn_core ps rest body hrest hnd hps hbody (fzList_of_ff _ _ hff) (fun h => by cases h) isFn c g2 b tl hb hk2.1 r hc
+    hrel hgen hseg
 
 /-- `defn`: the closure is made and bound; the body may hold self tail calls (`FzList`) -/
 theorem simF_defn_core {n : Nat} (name : String) (ps : List String) (rest : Option String) (body : List Expr)
